@@ -13,7 +13,7 @@ COMMON_NOTE = ("Trusted: CPython executing the real function objects on the symb
 # id -> (category, technique, text, design_ref)
 CHECKS = {
     "C01": ("other", "contract-based deductive verification of the real functions (VCs by symbolic execution of the code objects, z3/cvc5) + bounded list-of-rows stand-in",
-            "Proved for every row-length vector: the prefix-sum geometry built by RaggedShape.__init__, size, ravel/unravel_multi_index, index_array (four inductions), the constructor's size check, len/shape/lengths/size/ravel/astype, to_numpy_array, from_tuple_shape. Bounded (exhaustive inside stated bounds, never counted as proved): iteration/tolist, dtype matrix, save/load round trip (np.savez/np.load assumed).", "0, 20, 11/C01"),
+            "Proved for every row-length vector: the prefix-sum geometry built by RaggedShape.__init__, size, ravel/unravel_multi_index, index_array (four inductions), the constructor's size check, len/shape/lengths/size/ravel/astype, to_numpy_array, from_tuple_shape, iteration / tolist (the real generator run for an arbitrary iteration index k: row k has L(k) cells D[S(k)+c]; CPython's zip / generator protocol assumed). Bounded (exhaustive inside stated bounds, never counted as proved): dtype matrix, save/load round trip (np.savez/np.load assumed).", "0, 20, 11/C01"),
     "C02": ("other", "contract-based deductive verification (incl. an inductive scan invariant for build_indices) + bounded Python-list-indexing stand-in",
             "Proved for all inputs: column-slice arithmetic for all 8 None/int kinds with symbolic bounds, steps and column step; integer column / element refusal; row selection on codes for int / slice / index array / mask; build_indices (scatter-then-scan, unbounded rows); get_shape / get_flat_indices preconditions; __getitem__ and _get_row_subset dispatch; and the composition mechanised for ra[rowslice, colslice]: the real chain __getitem__ -> view_rows -> col_slice -> ravel -> gather executed on a symbolic array (only get_flat_indices replaced by its proved contract) gives, cell by cell, Python list indexing - for rows selected by a slice (bounds / steps symbolic), an integer index array or a boolean mask, columns by a slice (bounds symbolic, step in {1,2,-1,-2,-3}) or none, and for the integer forms ra[i, j], ra[i], ra[i, a:b:s], ra[rows, j]. Combinations outside these are bounded.", "0, 20, 11/C02"),
     "C03": ("other", "contract-based deductive verification (address arithmetic shared with reads, scatter frame, XOR-scan broadcast) + bounded list-assignment stand-in",
@@ -27,7 +27,7 @@ CHECKS = {
     "C07": ("other", "contracts (prefix-sum telescoping, shifted-prefix-sum lemma) + bounded numpy-per-row stand-in",
             "Proved: cumsum and add/subtract/xor accumulate restart at every row (integer data as mathematical integers / 64-bit words), diff plumbing (row r keeps max(L-n,0) differences of its own cells), index_array for sort. sort, unique, diff values end to end are bounded. One known finding (float accumulate).", "0, 20, 11/C07"),
     "C08": ("other", "contracts on structural functions + bounded stand-in",
-            "Proved: concatenate(axis=0) for 2 and 3 operands, zeros/ones/empty_like, where, nonzero, ragged_slice window arithmetic, unravel_multi_index, _raw_broadcast (mask broadcast), subset (row r keeps exactly its True-masked cells in order; fold-of-booleans = rank difference and prefix-sum-of-counts lemmas). concatenate(axis=1) (a Python loop over rows) and the padded matrix are bounded.", "0, 20, 11/C08"),
+            "Proved: concatenate(axis=0) for 2 and 3 operands, zeros/ones/empty_like, where, nonzero, ragged_slice window arithmetic, unravel_multi_index, _raw_broadcast (mask broadcast), subset (row r keeps exactly its True-masked cells in order; fold-of-booleans = rank difference and prefix-sum-of-counts lemmas). as_padded_matrix for both sides (cell (r, c) of the (n, longest row) matrix is the row's own cell or the fill value; 2-D index matrix, clamp, gather, scatter of the fill positions, reshape; flat positions r*W+c in factored form). concatenate(axis=1) (a Python loop over rows) is bounded.", "0, 20, 11/C08"),
     "C09": ("other", "contracts (col_counts by three inductions, dtype dispatch) + bounded stand-in with dtype extremes",
             "Proved: col_counts[j] = number of rows longer than j, for all row-length vectors; sum(axis=0) accumulator / dtype / index dispatch; the column-sum VALUES of integer arrays (result[k] = sum of the k-th cells of the rows that have one, two inductions over the add.at accumulation, integers mathematical); get_column_values; mean(axis=0) = sum(axis=0) / col_counts() over the callee contracts (float division uninterpreted). Float / bool column-sum values are bounded.", "0, 20, 11/C09"),
     "C10": ("other", "two-state frame contracts on read-only operations + bounded differential histories",
